@@ -156,6 +156,21 @@ VARIANTS = [
     V( 'merge-empty-unguarded', MODBUS, "try:\n base, length = next( input )\n except StopIteration:\n return # no ranges; nothing to merge", "base, length	= next( input )", fires=[ 'M-BANK' ], why='defect O' ),
     V( 'merge-reach-equivalent', MODBUS, "and address < base + length + ( reach or 1 )):", "and address <= base + length - 1 + ( reach or 1 )):", silent=[ 'M-BANK' ] ),
     V( 'merge-reach-off-by-one', MODBUS, "and address < base + length + ( reach or 1 )):", "and address <= base + length + ( reach or 1 )):", fires=[ 'M-BANK' ] ),
+    # ---- round-3 rules
+    V( 'init-shared-list', PARSER, "u64p[None] = move_if( 'mov64bitu', source='.ULINT',\n destination='.data', initializer=lambda **kwds: [],", "u64p[None]		= move_if( 	'mov64bitu',	source='.ULINT',\n                                           destination='.data',	initializer=[],", fires=[ 'G-INIT' ] ),
+    V( 'peek-truthiness', CLIENT, "if self.source.peek() is None:", "if not self.source.peek():", fires=[ 'P-ACT' ] ),
+    V( 'pathdefaults-shadowed', DEVICE, "s,e,c = parse_path_component( p.pop( 0 ))\n assert c in (None,1),", "s,elm,cnt		= parse_path_component( p.pop( 0 ))\n        assert cnt in (None,1),", fires=[ 'T-PATHDEFAULTS' ] ),
+    V( 'setdefault-none-is-absent', DOT, "if key not in self:\n self[key] = default\n return self[key]", "value			= self.get( key )\n        if value is None:\n            self[key]           = default\n            value		= self[key]\n        return value", fires=[ 'D-DELEGATE' ] ),
+    V( 'load-handler-narrowed', HFILES, "regs = dict( ( (int( r ),(realtime,int( v ))) for r,v in data.items() ) )\n except Exception as exc:", "regs	= dict( ( (int( r ),(realtime,int( v ))) for r,v in data.items() ) )\n                        except (AssertionError, ValueError) as exc:", fires=[ 'H-LOAD' ] ),
+    V( 'cpf-stale-input-memo', PARSER, "if item.type_id in cls.ITEM_PARSERS:\n itmprs = cls.ITEM_PARSERS[item.type_id]", "if item.type_id in cls.ITEM_PARSERS and 'input' not in item:\n                itmprs		= cls.ITEM_PARSERS[item.type_id]", fires=[ 'K-STALEMEMO' ] ),
+    V( 'client-write-elements-from-data', CLIENT, "if cnt is not None:\n elements = cnt\n req.path = { 'segment': [ dotdict( s ) for s in seg ]}\n if tag_type is None:", "if cnt is not None:\n            elements		= cnt\n        elif data:\n            elements		= len( data )\n        req.path		= { 'segment': [ dotdict( s ) for s in seg ]}\n        if tag_type is None:", fires=[ 'F-CLIENT' ] ),
+    V( 'max-bytes-instance-snapshot', LOGIX, "RD_TAG_NAM = \"Read Tag\"", "def __init__( self, name=None, **kwds ):\n        super( Logix, self ).__init__( name=name, **kwds )\n        self.MAX_BYTES		= self.config_int( 'Max Bytes', self.MAX_BYTES )\n\n    RD_TAG_NAM			= \"Read Tag\"", fires=[ 'F-FRAG' ] ),
+    V( 'context-strip-both-sides', CLIENT, "return bytes( bytearray( sender_context ).rstrip( b'\\0' ))", "return bytes( bytearray( sender_context ).strip( b'\\0' ))", fires=[ 'T-CONTEXT' ] ),
+    V( 'set-attribute-index-as-offset', DEVICE, "val = [ struct.unpack( fmt, buf[i:i+siz] )[0]\n for i in range( 0, len(buf), siz ) ]", "val		= [ struct.unpack_from( fmt, buf, i )[0]\n                                    for i in range( len( att )) ]", fires=[ 'D-VALIDATE' ] ),
+    V( 'set-attribute-unpack-from-scaled', DEVICE, "val = [ struct.unpack( fmt, buf[i:i+siz] )[0]\n for i in range( 0, len(buf), siz ) ]", "val		= [ struct.unpack_from( fmt, buf, i * siz )[0]\n                                    for i in range( len( att )) ]", silent=[ 'D-VALIDATE' ] ),
+    V( 'issued-counted-after-yield', CLIENT, "requests[0] += 1\n yield iss", "yield iss\n                requests[0]    += 1", fires=[ 'S-COMPLETE' ] ),
+    V( 'route-path-canonicalised-before-test', UCMM, 'pl = "{port}/{link}".format( **route_path[0] )', 'pl	= "{port}/{link}".format( **device.port_link( route_path[0] ))', fires=[ 'D-REFUSE' ] ),
+    V( 'state-keeps-payload', DEVICE, "def closure():\n \"\"\"Closure capturing data,", "self.payload		= target,path,data\n        def closure():\n            \"\"\"Closure capturing data,", fires=[ 'R-STATELESS' ] ),
     # ---- round-2 rules (second half)
     V( 'unpack-unguarded-split', DOT, "ext,_,rest= rest.partition( '.' ) # the closing bracket may be in the last segment\n rest = rest or None", "ext,rest= rest.split( '.', 1 )", fires=[ 'D-UNPACK' ], why='defect N' ),
     V( 'cache-not-invalidated', TIMES, "self.value += rhs\n self._str = None", "self.value	       += rhs", fires=[ 'T-CACHE' ] ),
